@@ -219,10 +219,14 @@ Definition py_int (v : str) : option Z :=
     let n := Z.of_N (dec_value ds) in Some (if neg then (- n)%Z else n)
   else None.
 
-(* utf-8 encoding of a str (surrogates are not special-cased: server texts only) *)
+(* s.encode("utf-8", "backslashreplace"): a lone surrogate U+D800..U+DFFF (a str may hold one: a
+   traceback text quoting an undecodable file name) becomes the six ASCII characters \udxxx *)
+Definition hexdig_lower (d : N) : N := if d <? 10 then 48 + d else 87 + d.
 Definition utf8_cp (c : N) : bytes :=
   if c <? 128 then [c]
   else if c <? 2048 then [192 + c / 64; 128 + c mod 64]
+  else if (55296 <=? c) && (c <=? 57343) then
+    [92; 117; hexdig_lower (c / 4096); hexdig_lower ((c / 256) mod 16); hexdig_lower ((c / 16) mod 16); hexdig_lower (c mod 16)]
   else if c <? 65536 then [224 + c / 4096; 128 + (c / 64) mod 64; 128 + c mod 64]
   else [240 + c / 262144; 128 + (c / 4096) mod 64; 128 + (c / 64) mod 64; 128 + c mod 64].
 Definition utf8 (s : str) : bytes := flat_map utf8_cp s.
